@@ -105,3 +105,19 @@ Proof.
   split; [exact H2|]. intros Hp. destruct (H3 Hp) as (A & B & C & D & _). split; [exact A|]. split; [exact B|]. split; [exact C | exact D].
 Qed.
 Print Assumptions C17_hc_mid_destSize.
+
+Theorem C17_hc_mid_destSize_strict :
+  forall src srcSize target,
+    src_ok src -> 0 <= srcSize < 2147483648 -> 0 <= target ->
+    let r := compress_HC_destSize_mid src srcSize target in
+    0 < hr_ret r -> strict_valid [] (hr_out r) = Some (load_list src 0 (Z.to_nat (hr_consumed r))).
+Proof. exact compress_HC_destSize_mid_strict. Qed.
+Print Assumptions C17_hc_mid_destSize_strict.
+
+(* Non-vacuity: LZ4_compress_HC_destSize(level 2) with a budget too small for the whole input *)
+Example C17_hc_mid_nonvacuous :
+  let l := concat (repeat [97; 98; 99; 100; 101; 102; 103] 12) ++ [1; 2; 3; 4; 5; 6; 7; 8; 9; 10; 11; 12; 13; 14; 15; 16] in
+  let r := compress_HC_destSize_mid (mem_of_list 0 l) 100 20 in
+  0 < hr_ret r <= 20 /\ 0 < hr_consumed r < 100 /\
+  strict_valid [] (hr_out r) = Some (firstn (Z.to_nat (hr_consumed r)) l).
+Proof. vm_compute. repeat split; try reflexivity; discriminate. Qed.
